@@ -361,12 +361,14 @@ import (
 
 //@ func getLatestNonce
 //@   requires !isNil(acnt)
+//@   ensures[C10] isErr(err, ErrInvalidArguments) ==> failed || readFailed
 //@   ensures[C07] err == nil ==> r == beval(St[addr(acnt)][Knonce(seq(tokenID))]) % 18446744073709551616 && readFailed == old(readFailed)
 //@   ensures err != nil ==> readFailed
 //@   modifies readFailed
 
 //@ func saveLatestNonce
 //@   requires !isNil(acnt)
+//@   ensures[C10] isErr(err, ErrInvalidArguments) ==> failed || readFailed
 //@   ensures[C07] err == nil ==> St[addr(acnt)][Knonce(seq(tokenID))] == be(nonce) && failed == old(failed)
 //@   ensures[C17] err != nil ==> failed
 //@   ensures[C05] onlyChanged(St, old(St), addr(acnt), Knonce(seq(tokenID)))
@@ -374,6 +376,7 @@ import (
 
 //@ func (e *esdtNFTCreateRoleTransfer) deleteCreateRoleFromAccount
 //@   requires e != nil && !isNil(e.marshalizer) && !isNil(acntDst)
+//@   ensures[C10] isErr(err, ErrInvalidArguments) ==> failed || readFailed
 //@   ensures[C07,C15] err == nil && !readFailed && (len(old(St)[addr(acntDst)][seq(esdtTokenRoleKey)]) == 0 || lnodup(dRoles(old(St)[addr(acntDst)][seq(esdtTokenRoleKey)]))) ==> len(St[addr(acntDst)][seq(esdtTokenRoleKey)]) == 0 || (lnodup(dRoles(St[addr(acntDst)][seq(esdtTokenRoleKey)])) && labsent(dRoles(St[addr(acntDst)][seq(esdtTokenRoleKey)]), "ESDTRoleNFTCreate"))
 //@   ensures[C17] err == nil ==> failed == old(failed)
 //@   ensures[C05] onlyChanged(St, old(St), addr(acntDst), seq(esdtTokenRoleKey))
@@ -382,6 +385,7 @@ import (
 
 //@ func (e *esdtNFTCreateRoleTransfer) addCreateRoleToAccount
 //@   requires e != nil && !isNil(e.marshalizer) && !isNil(acntDst)
+//@   ensures[C10] isErr(err, ErrInvalidArguments) ==> failed || readFailed
 //@   ensures[C17] err == nil ==> failed == old(failed)
 //@   ensures[C07] err == nil && !readFailed ==> len(St[addr(acntDst)][seq(esdtTokenRoleKey)]) != 0
 //@   ensures[C07] err == nil && !readFailed && St == old(St) ==> !labsent(dRoles(St[addr(acntDst)][seq(esdtTokenRoleKey)]), "ESDTRoleNFTCreate")
@@ -399,6 +403,7 @@ import (
 //@   view nxt = seq(vmInput.Arguments[1])
 //@   requires e != nil && !isNil(e.marshalizer) && !isNil(e.accounts) && !isNil(e.shardCoordinator)
 //@   requires dstIsRecipient(acntDst, vmInput)
+//@   ensures[C07,C10] isErr(err, ErrInvalidArguments) && !failed && !readFailed && isNil(acntSnd) ==> len(vmInput.Arguments) != 2 || (seq(vmInput.CallerAddr) == ESDTSC() && len(vmInput.Arguments[1]) != len(vmInput.CallerAddr))
 //@   ensures[C11] shape(out, err)
 //@   ensures[C06] err == nil ==> out.GasRemaining == 0 && (seq(vmInput.CallerAddr) == ESDTSC() ==> onlyRcpt(out, nxt) && fwdGas(out, nxt) == 0) && (seq(vmInput.CallerAddr) != ESDTSC() ==> out.OutputAccounts == nil)
 //@   ensures[C17] err == nil ==> failed == old(failed)
@@ -471,6 +476,7 @@ import (
 //@   requires e != nil && locksFree()
 //@   requires !isNil(e.marshalizer) && !isNil(e.pauseHandler) && !isNil(e.payableHandler) && !isNil(e.shardCoordinator) && esdtPrefix(e.keyPrefix)
 //@   requires sndIsCaller(acntSnd, vmInput) && dstIsRecipient(acntDst, vmInput) && WFvalues(St)
+//@   ensures[C01,C10] isErr(err, ErrInvalidArguments) && !failed && !readFailed ==> len(vmInput.Arguments) < 2
 //@   ensures[C11] shape(out, err)
 //@   ensures[C06] err == nil ==> onlyRcpt(out, dst) && out.GasRemaining + fwdGas(out, dst) <= vmInput.GasProvided
 //@   ensures[C16] err == nil && !isNil(acntSnd) ==> out.GasRemaining + fwdGas(out, dst) == vmInput.GasProvided - e.funcGasCost
@@ -510,6 +516,7 @@ import (
 //@   requires costBound(e.funcGasCost) && costBound(e.gasConfig.DataCopyPerByte)
 //@   requires vmInput != nil && len(vmInput.Arguments) >= 4 && !senderSide ==> dHasMeta(a3) && !dValNil(a3) && dVal(a3) > 0
 //@   requires vmInput != nil && senderSide ==> !isNil(acntSnd)
+//@   ensures[C01,C10] isErr(err, ErrInvalidArguments) && !failed && !readFailed && seq(vmInput.CallerAddr) != seq(vmInput.RecipientAddr) ==> len(vmInput.Arguments) < 4
 //@   ensures[C11] shape(out, err)
 //@   ensures[C17] err == nil ==> failed == old(failed)
 //@   ensures[C06] err == nil && senderSide ==> onlyRcpt(out, a3) && out.GasRemaining + fwdGas(out, a3) <= vmInput.GasProvided
@@ -561,6 +568,7 @@ import (
 //@   ensures[C08] err == nil && !readFailed && len(old(St)[dstA][Kd]) != 0 && dHasMeta(old(St)[dstA][Kd]) ==> esdtDataToTransfer.TokenMetaData != nil && dMHash(old(St)[dstA][Kd]) == seq(esdtDataToTransfer.TokenMetaData.Hash)
 //@   ensures[C08] err == nil ==> St[dstA][Kd] == tokEnc(esdtDataToTransfer) && esdtDataToTransfer.TokenMetaData == old(esdtDataToTransfer.TokenMetaData)
 //@   ensures[C15] err == nil ==> WFvalues(St)
+//@   ensures[C01,C10] isErr(err, ErrInvalidArguments) ==> failed || readFailed
 //@   modifies St, failed, readFailed, loadFailed, bigval(esdtDataToTransfer.Value)
 
 //@ func (e *esdtNFTMultiTransfer) transferOneTokenOnSenderShard
@@ -666,6 +674,7 @@ import (
 //@   ensures[C06] err == nil && !senderSide ==> onlyRcpt(out, rcv) && out.GasRemaining + fwdGas(out, rcv) <= vmInput.GasProvided
 //@   ensures[C06] err == nil && senderSide ==> onlyRcpt(out, seq(vmInput.Arguments[0])) && out.GasRemaining + fwdGas(out, seq(vmInput.Arguments[0])) <= vmInput.GasProvided
 //@   ensures[C10] err == nil && senderSide && shardOf(seq(vmInput.Arguments[0])) != selfShard ==> has(out.OutputAccounts, seq(vmInput.Arguments[0])) && forall(j, int, trigger(warg(seq(out.OutputAccounts[seq(vmInput.Arguments[0])].OutputTransfers[0].Data), 3 + 3 * j)), 0 <= j && j < beval(seq(vmInput.Arguments[1])) % 18446744073709551616 ==> warg(seq(out.OutputAccounts[seq(vmInput.Arguments[0])].OutputTransfers[0].Data), 1 + 3 * j) == seq(vmInput.Arguments[2 + 3 * j]) && (warg(seq(out.OutputAccounts[seq(vmInput.Arguments[0])].OutputTransfers[0].Data), 3 + 3 * j) == be(beval(seq(vmInput.Arguments[4 + 3 * j]))) || dVal(warg(seq(out.OutputAccounts[seq(vmInput.Arguments[0])].OutputTransfers[0].Data), 3 + 3 * j)) == beval(seq(vmInput.Arguments[4 + 3 * j]))))
+//@   ensures[C01,C10] !senderSide && isErr(err, ErrInvalidArguments) && !failed && !readFailed ==> nD == 0 || nD > len(vmInput.Arguments) || len(vmInput.Arguments) < 3 * nD + 1 || len(vmInput.Arguments) < 2
 //@   ensures[C09] err == nil && !senderSide && St != old(St) && mustVerify(vmInput, 3 * nD + 1) ==> payable(rcv)
 //@   ensures[C09] err == nil && senderSide ==> shardOf(seq(vmInput.Arguments[0])) != 4294967295 && seq(vmInput.Arguments[0]) != snd && len(vmInput.Arguments[0]) == len(vmInput.CallerAddr)
 //@   ensures[C02,C05] forall(a, addr, k, bseq, St[a][k] != old(St)[a][k] ==> ((senderSide && (a == snd || a == seq(vmInput.Arguments[0]))) || (!senderSide && a == rcv)) && isTokKey(k))
@@ -870,6 +879,23 @@ func lemmaActivationFollowsLastEpoch(b *baseEnabled, e1, e2 uint32, t1, t2 uint6
 //@   ensures[C18,C16] err == nil ==> RegTyp[payload(c)]["ESDTNFTAddURI"] == typeid("*builtInFunctions.esdtNFTAddUri") && ptr(RegVal[payload(c)]["ESDTNFTAddURI"], "*builtInFunctions.esdtNFTAddUri").funcGasCost == b.gasConfig.BuiltInCost.ESDTNFTAddURI && ptr(RegVal[payload(c)]["ESDTNFTAddURI"], "*builtInFunctions.esdtNFTAddUri").gasConfig.StorePerByte == b.gasConfig.BaseOperationCost.StorePerByte && ptr(RegVal[payload(c)]["ESDTNFTAddURI"], "*builtInFunctions.esdtNFTAddUri").baseEnabled.activationEpoch == b.esdtNFTImprovementV1ActivationEpoch
 //@   ensures[C18,C16] err == nil ==> RegTyp[payload(c)]["MultiESDTNFTTransfer"] == typeid("*builtInFunctions.esdtNFTMultiTransfer") && ptr(RegVal[payload(c)]["MultiESDTNFTTransfer"], "*builtInFunctions.esdtNFTMultiTransfer").funcGasCost == b.gasConfig.BuiltInCost.ESDTNFTMultiTransfer && ptr(RegVal[payload(c)]["MultiESDTNFTTransfer"], "*builtInFunctions.esdtNFTMultiTransfer").gasConfig.DataCopyPerByte == b.gasConfig.BaseOperationCost.DataCopyPerByte && ptr(RegVal[payload(c)]["MultiESDTNFTTransfer"], "*builtInFunctions.esdtNFTMultiTransfer").baseEnabled.activationEpoch == b.esdtNFTImprovementV1ActivationEpoch
 //@   modifies RegHas, RegTyp, RegVal, b.builtInFunctions, new(builtInFunctions.functionContainer)
+
+// lemmaMultiTransferShapeAccepted (C01, C10): the message shape the sender side of MultiESDTNFTTransfer emits
+// (the count n >= 1, then 3n item arguments, then k >= 0 call arguments; contract of
+// createESDTNFTOutputTransfers) is outside the set of shapes the destination side rejects with
+// ErrInvalidArguments (acceptance clause of ProcessBuiltinFunction): a debited transfer is never refused
+// at the destination for its argument count.
+func lemmaMultiTransferShapeAccepted(n uint64, k uint64) bool {
+	if n < 1 || n > 1<<20 || k > 1<<20 {
+		return true
+	}
+	total := 1 + 3*n + k
+	rejected := n == 0 || n > total || total < 3*n+1 || total < 2
+	return !rejected
+}
+
+//@ func lemmaMultiTransferShapeAccepted
+//@   ensures[C01,C10] r
 
 // lemmaEmittedMessageParses (C10-i, C12): every data string the message encoder emits for a function
 // name without '@' parses, with the real call-arguments parser, into exactly that name and arguments
